@@ -196,7 +196,7 @@ done:
 	if overflow {
 		var z big.Int
 		bi, _ := z.SetString(string(ra[p0:pos+1]), int(radix))
-		return slip.Values{(*slip.Bignum)(bi), slip.Fixnum(start + pos + 1)}
+		return slip.Values{slip.IntegerFromBig(bi), slip.Fixnum(start + pos + 1)}
 	}
 	if neg {
 		num = -num
